@@ -513,6 +513,8 @@ def exc_kind(e):
     msg = str(e)
     if isinstance(e, INJECTED):
         return "injected"
+    if isinstance(e, Warning):
+        return "warning:%s:%s" % (type(e).__name__, str(e)[:120])
     if n == "IntegrityError":
         if "NOT NULL" in msg:
             return "notNull"
@@ -615,7 +617,7 @@ class Db:
 
 
 def run_batch(db, ops, recreate="always", copy_from=False, fault=None, scope="none", universe=(), tddl=None, fkind="exception",
-              pr=None, batch_kw=None):
+              pr=None, batch_kw=None, wfilter="ignore"):
     """Runs the real batch_alter_table.  scope: 'none' (connection not in a transaction: flush opens one
     through _ensure_scope_for_ddl), 'outer' (caller's `with conn.begin()`, rolled back by the exception),
     'swallow' (caller's transaction, exception caught inside it, transaction committed).
@@ -663,7 +665,8 @@ def run_batch(db, ops, recreate="always", copy_from=False, fault=None, scope="no
 
         outcome = "ok"
         with warnings.catch_warnings():
-            warnings.simplefilter("ignore")
+            # the process warning policy: "error" = `python -W error` / pytest filterwarnings=error around the batch
+            warnings.simplefilter(wfilter)
             try:
                 if scope == "none":
                     body()
